@@ -211,6 +211,15 @@ def fmt_e9(sf, it, fnname, idx, arg_rewrite=None):
             dict(name="vx_e9_%s_fmt_%d" % (fnname, idx), body='format!("%s", a0)' % lit)), (l0, l1)
 
 
+WRAPPER_MSGS = [
+    ("update_one_state", "state: ProvisionFlags, tx: oneshot::Sender<ProvisionFlags>", "ProvisionAction::UpdateState { state, response: tx }"),
+    ("reset_one_state", "state: ProvisionFlags, tx: oneshot::Sender<ProvisionFlags>", "ProvisionAction::ResetState { state, response: tx }"),
+    ("get_state", "tx: oneshot::Sender<ProvisionFlags>", "ProvisionAction::GetState { response: tx }"),
+    ("set_provision_finished", "finished: bool, tx: oneshot::Sender<i128>", "ProvisionAction::SetProvisionFinished { finished, response: tx }"),
+    ("get_provision_finished", "tx: oneshot::Sender<i128>", "ProvisionAction::GetProvisionFinished { response: tx }"),
+]
+
+
 def build(u):
     u.externs.append("serde_derive")
     u.features += ["allocator_api", "sized_hierarchy"]
@@ -336,7 +345,8 @@ def build(u):
 
         # ---- (1) the actor: every arm of the `match action` in ProvisionSharedState::start_new (E5b) -----------
         with u.mod("provision_wrapper", uses="use crate::common::logger;\nuse crate::common::result::Result;\nuse crate::provision::ProvisionFlags;\nuse crate::proxy_agent_shared::misc_helpers;\nuse tokio::sync::{mpsc, oneshot};"):
-            u.take_ext(pw, ["ProvisionAction", "ProvisionSharedState"], "vx_ext_pw", uses="use crate::vx_ext_provision_flags::ProvisionFlags;\nuse tokio::sync::{mpsc, oneshot};")
+            u.take_ext(pw, ["ProvisionAction"], "vx_ext_pw_action", uses="use crate::vx_ext_provision_flags::ProvisionFlags;\nuse tokio::sync::{mpsc, oneshot};", opaque=False, transparent=True)
+            u.take_ext(pw, ["ProvisionSharedState"], "vx_ext_pw", uses="use crate::vx_ext_pw_action::ProvisionAction;\nuse tokio::sync::{mpsc, oneshot};")
             it = pw.item("ProvisionSharedState::start_new", "fn")
             if len(it["matches"]) != 1:
                 raise Undecided("start_new: expected exactly one match (the actor dispatch), found %d" % len(it["matches"]))
@@ -362,6 +372,19 @@ def build(u):
                            what="(actor arm ProvisionAction::%s)" % v)
             if seen != set(ARM_SPECS):
                 raise Undecided("start_new: actor arms %s missing" % sorted(set(ARM_SPECS) - seen))
+
+            # ---- which message each wrapper method sends: the argument expression of its single `.send(..)` (E5c) ----
+            for (meth, params, expect) in WRAPPER_MSGS:
+                wit = pw.item("ProvisionSharedState::" + meth, "fn")
+                sends = [c for c in wit["calls"] if c["kind"] == "method" and c["callee"] == "send"]
+                if len(sends) != 1 or len(sends[0]["args"]) != 1 or re.sub(r"\s+", "", pw.s(*sends[0]["receiver"])) != "self.0":
+                    raise Undecided("%s: expected exactly one self.0.send(<message>)" % meth)
+                if len(wit["awaits"]) != 2:
+                    raise Undecided("%s: expected exactly two awaits (send, reply), found %d" % (meth, len(wit["awaits"])))
+                a = sends[0]["args"][0]
+                u.slice_fn(pw, "ProvisionSharedState::" + meth, "vx_msg_" + meth, a[0], a[1], params, ret_type="ProvisionAction", contract="""
+        ensures r == (%s),  // @C16.wrapper.%s.sends_its_own_message
+""" % (expect, meth), what="(the message sent by %s)" % meth)
 
             # ---- the wrapper methods: one message, one reply. ASSUMED contracts = what that single atomic actor operation
             #      guarantees for SOME actor state (the state is havocked by other tasks between two awaits)
@@ -411,7 +434,7 @@ use crate::proxy_agent_shared::{misc_helpers, proxy_agent_aggregate_status};
 use std::path::PathBuf;
 use std::time::Duration;
 use tokio_util::sync::CancellationToken;"""
-    PRE = "broadcast use axiom_fmt_error, axiom_pf_bits_of, axiom_pf_of_bits;\n"
+    PRE = "broadcast use axiom_fmt_error, axiom_pf_bits_of, axiom_pf_of_bits, lemma_contains_all_ready_b;\n"
     with u.mod("provision", uses=uses + "\npub use crate::ProvisionFlags;"):
         for c in ("PROVISION_TAG_FILE_NAME", "STATUS_TAG_TMP_FILE_NAME", "STATUS_TAG_FILE_NAME"):
             u.take(pv, c, "const")
@@ -429,13 +452,16 @@ use tokio_util::sync::CancellationToken;"""
         ensures r.finished == finished && r.errorMessage == error_message,
 """)
         u.take_fn(pv, "start_event_threads", external_body=True, ret="")
-        u.take_fn(pv, "write_provision_state", external_body=True, ret="", ghost=TASK_GHOST, sig_edits=unit_ret(pv, "write_provision_state"), contract="""
+        u.take_fn(pv, "write_provision_state", ret="", ghost=TASK_GHOST, sig_edits=unit_ret(pv, "write_provision_state"),
+                  pre_body=PRE + "broadcast use axiom_fmt_shared_error, axiom_fmt_io_error, axiom_path_of_str, axiom_file_name_joined, axiom_to_string_string;\nproof { lits_status_files(); }",
+                  ghost_calls=[("get_provision_failed_state_message", None, "Tracked(t)")],
+                  contract="""
         ensures final(t).same_knowledge(*old(t)),
 """)
+
         u.take_fn(pv, "update_provision_state", ghost=TASK_GHOST, pre_body=PRE, sig_edits=unit_ret(pv, "update_provision_state"),
                   ghost_calls=[("update_one_state", None, "Tracked(t)"), ("set_provision_finished", None, "Tracked(t)"), ("write_provision_state", None, "Tracked(t)")],
                   e9=flag_e9("update_provision_state", consts, ["ALL_READY"]),
-                  hints=[("provision_state.contains(", None, "before", "proof { lemma_contains_all_ready(pf_bits(provision_state)); }")],
                   contract="""
         ensures
             final(t).ops.len() > old(t).ops.len() && final(t).ops.subrange(0, old(t).ops.len() as int) =~= old(t).ops,
@@ -448,7 +474,6 @@ use tokio_util::sync::CancellationToken;"""
         u.take_fn(pv, "reset_provision_state", ghost=TASK_GHOST, pre_body=PRE, sig_edits=unit_ret(pv, "reset_provision_state"),
                   ghost_calls=[("reset_one_state", None, "Tracked(t)"), ("set_provision_finished", None, "Tracked(t)")],
                   e9=flag_e9("reset_provision_state", consts, ["ALL_READY"]),
-                  hints=[(".set_provision_finished(provision_state.contains(", None, "before", "proof { lemma_contains_all_ready(pf_bits(provision_state)); }")],
                   contract="""
         ensures
             final(t).ops.len() > old(t).ops.len() && final(t).ops.subrange(0, old(t).ops.len() as int) =~= old(t).ops,
@@ -462,7 +487,6 @@ use tokio_util::sync::CancellationToken;"""
         u.take_fn(pv, "provision_timeup", ghost=TASK_GHOST, pre_body=PRE, sig_edits=unit_ret(pv, "provision_timeup"),
                   ghost_calls=[("get_state", None, "Tracked(t)"), ("set_provision_finished", None, "Tracked(t)"), ("write_provision_state", None, "Tracked(t)")],
                   e9=flag_e9("provision_timeup", consts, ["NONE", "ALL_READY"]),
-                  hints=[("if !provision_state.contains(", None, "before", "proof { lemma_contains_all_ready(pf_bits(provision_state)); }")],
                   contract="""
         requires
             old(t).deadline_passed,   // this function IS the deadline handler (census: its only caller is behind the time-up test)
@@ -547,7 +571,13 @@ use tower_http::body::Limited;"""
             u.take_fn(pxs, "ProxyServer::empty_response", external_body=True, contract="""
         ensures resp_status(r) == status_u16(status_code) && box_body_bytes(resp_body(r)) == Seq::<u8>::empty(),
 """)
+            hit = pxs.item("ProxyServer::handle_provision_state_check_request", "fn")
+            fs = [c for c in hit["calls"] if c["kind"] == "path" and c["callee"].replace(" ", "") == "HeaderValue::from_static"]
+            if len(fs) != 1 or len(fs[0]["args"]) != 1 or not re.fullmatch(r'"[^"\\]*"', pxs.s(*fs[0]["args"][0])):
+                raise Undecided("handle_provision_state_check_request: expected one HeaderValue::from_static(<string literal>)")
+            ctype_lit = pxs.s(*fs[0]["args"][0])
             u.take_fn(pxs, "ProxyServer::handle_provision_state_check_request", ghost=TASK_GHOST,
+                      hints=[("HeaderValue::from_static(", None, "before", "proof { reveal_strlit(%s); }" % ctype_lit)],
                       pre_body="broadcast use axiom_fmt_error, axiom_key_text_str, axiom_into_bytes_vec, axiom_fmt_parse_int_error, axiom_fmt_serde_json_error, axiom_clone_is_copy_u8;\nproof { lits_headers(); }",
                       ghost_calls=[("provision::get_provision_state_internal", None, "Tracked(t)")],
                       e9=[("StatusCode::BAD_REQUEST", None, "", "", "http::StatusCode", "    ensures status_u16(r) == 400,", dict(name="vx_e9_status_BAD_REQUEST")),
@@ -558,9 +588,10 @@ use tower_http::body::Limited;"""
             final(t).ops == old(t).ops,   // a status query never changes the provisioning state
             r is Ok,
             hm_get(req_headers(request), "Metadata"@) is None ==> resp_status(r->Ok_0) == 400 && box_body_bytes(resp_body(r->Ok_0)).len() == 0,
-            hm_get(req_headers(request), "Metadata"@) is Some && resp_status(r->Ok_0) != 500 ==> resp_status(r->Ok_0) == 200 && exists|ps: provision::provision_query::ProvisionState|
-                box_body_bytes(resp_body(r->Ok_0)) == utf8_of(#[trigger] json_of(&ps))
-                && (ps.finished ==> finished_allowed(tick_or_zero(final(t).last_tick), query_instant(request), latched(channel_or_unknown(final(t).last_channel))))  // @C16.handle_provision_state_check_request.finished_only_if_tick_set_at_or_after_query_instant_or_latched
-                && ps.errorMessage@ == error_text(flags_or_none(final(t).reads.last()),
-                        final(t).msgs[AgentStatusModule::Redirector], final(t).msgs[AgentStatusModule::KeyKeeper], final(t).msgs[AgentStatusModule::ProxyServer]),  // @C16.handle_provision_state_check_request.error_text_names_exactly_the_subsystems_not_ready
+            hm_get(req_headers(request), "Metadata"@) is Some && resp_status(r->Ok_0) != 500 ==> resp_status(r->Ok_0) == 200,
+            // the answer: the body is the JSON rendering of a ProvisionState value ps such that ...
+            hm_get(req_headers(request), "Metadata"@) is Some && resp_status(r->Ok_0) != 500 ==> exists|ps: provision::provision_query::ProvisionState|
+                box_body_bytes(resp_body(r->Ok_0)) == utf8_of(#[trigger] json_of(&ps)) && (ps.finished ==> finished_allowed(tick_or_zero(final(t).last_tick), query_instant(request), latched(channel_or_unknown(final(t).last_channel)))),  // @C16.handle_provision_state_check_request.finished_only_if_tick_set_at_or_after_query_instant_or_latched
+            hm_get(req_headers(request), "Metadata"@) is Some && resp_status(r->Ok_0) != 500 ==> exists|ps: provision::provision_query::ProvisionState|
+                box_body_bytes(resp_body(r->Ok_0)) == utf8_of(#[trigger] json_of(&ps)) && ps.errorMessage@ == error_text(flags_or_none(final(t).reads.last()), final(t).msgs[AgentStatusModule::Redirector], final(t).msgs[AgentStatusModule::KeyKeeper], final(t).msgs[AgentStatusModule::ProxyServer]),  // @C16.handle_provision_state_check_request.error_text_names_exactly_the_subsystems_not_ready
 """)
